@@ -513,22 +513,39 @@ func clip(s string, n int) string {
 // execOutputSwitch: OUTPUT json|resp answers in the mode it switches to, on
 // every connection; afterwards the lanes are put back.
 func (r *runner) execOutputSwitch(name string, args []string, target string) {
-	for _, ln := range []struct {
+	type lane struct {
 		who  string
 		c    *t38.Conn
 		json bool
-	}{{"A/resp", r.tr.a, false}, {"B/json", r.tr.b, true}, {"C", r.tr.cc, r.tr.cc.JSON}} {
+	}
+	var errR *t38.Value     // an error reply seen on a RESP-mode lane
+	var errJ *t38.JSONReply // an error reply seen on a JSON-mode lane
+	switched := 0
+	lanes := []lane{{"A/resp", r.tr.a, false}, {"B/json", r.tr.b, true}, {"C", r.tr.cc, r.tr.cc.JSON}}
+	for _, ln := range lanes {
 		v := r.doRESP(ln.c, ln.who, name, args)
 		nowJSON := ln.json
 		switch {
 		case v.Kind == '+' && v.Str == "OK" && target == "resp":
 			nowJSON = false
-		case v.Kind == '$' && !v.Null && target == "json":
+			switched++
+		case v.IsErr() && !ln.json:
+			// refused (for instance a TIMEOUT wrapper whose deadline has passed): nothing switches
+			errR = &v
+		case v.Kind == '$' && !v.Null:
 			rep := r.decode(ln.who, name, args, v.Str)
-			if d := elapsedOK(rep); d != "" || !rep.OK || len(rep.M) > 2 {
+			if d := elapsedOK(rep); d != "" {
 				r.fail("disagree:"+name, fmt.Sprintf("%s: %s: reply %s %s", ln.who, t38.CmdString(args), v.Str, d))
 			}
-			nowJSON = true
+			switch {
+			case rep.OK && target == "json" && len(rep.M) <= 2:
+				nowJSON = true
+				switched++
+			case !rep.OK && ln.json:
+				errJ = &rep
+			default:
+				r.fail("disagree:"+name, fmt.Sprintf("%s: %s switches to %s but answers %s", ln.who, t38.CmdString(args), target, v))
+			}
 		default:
 			r.fail("disagree:"+name, fmt.Sprintf("%s: %s switches to %s but answers %s", ln.who, t38.CmdString(args), target, v))
 		}
@@ -539,8 +556,16 @@ func (r *runner) execOutputSwitch(name string, args []string, target string) {
 			}
 		}
 	}
-	r.label("cmd:output/switch-" + target + "/ok")
-	r.label("outcome:ok")
+	outcome := "ok"
+	if switched != len(lanes) {
+		outcome = "err"
+		if switched != 0 || errR == nil || errJ == nil {
+			r.fail("disagree:"+name, fmt.Sprintf("%s: switched on %d of %d connections", t38.CmdString(args), switched, len(lanes)))
+		}
+		r.check(0, 1, "A/resp vs B/json", name, args, *errR, *errJ)
+	}
+	r.label("cmd:output/switch-" + target + "/" + outcome)
+	r.label("outcome:" + outcome)
 }
 
 // drain sends QUIT on a detached connection and waits for the server to
